@@ -408,7 +408,7 @@ impl Property for C11 {
         "cases: a generated list of 3-10 steps (int/binary bindings, shadowing, destructuring, named tuples and field access, functions and closures capturing earlier bindings incl. binaries, type aliases, uses of the flowing previous result, processes that outlive their line and are awaited later, an occasional nil-valued step or final runtime error). References: every prefix is evaluated as ONE program in a fresh environment (value and variables). Variants: a random partition of the steps into lines, rejected lines (parse and compile errors) inserted between them, an optional second session in the same environment, variable reads at random boundaries, each under a sampled schedule/configuration, with the C06 heap monitors on. Non-trivial: >=2 workers, >=1 out-of-order handled message, conclusive. Distinct = distinct (scenario shape + partition, interleaving hash)."
     }
     fn required_probes(&self) -> Vec<&'static str> {
-        vec!["line_value_compared", "vars_compared", "rejected_line_between_accepted", "line_with_several_steps", "second_session_interleaved", "repl_compaction_with_heap_locals", "background_process_awaited_on_later_line", "lines_after_top_level_tail_call"]
+        vec!["line_value_compared", "vars_compared", "rejected_line_between_accepted", "line_with_several_steps", "second_session_interleaved", "repl_compaction_with_heap_locals", "background_process_awaited_on_later_line", "lines_after_top_level_tail_call", "vars_read_after_nil_line"]
     }
     fn generate(&self, rng: &mut Rng, _tier: Tier) -> Scenario {
         let mut g = G { ints: vec![], bins: vec![], tuples: vec![], fns: vec![], gfns: vec![], procs: vec![], hfns: vec![], optf: vec![], clsf: vec![], unions: vec![], narrowed: vec![], n: 0, last_int: false, lit: 0x20 };
@@ -634,6 +634,15 @@ impl Property for C11 {
                 _ => {}
             }
         }
+        let mut nil_seen = false;
+        for (op, out) in r.ops.iter().zip(r.outs.iter()) {
+            match (op, out) {
+                (ClientOp::Line { session: 0, src }, Out::Value(x)) if x == "[]" && !e.rejected.contains(src) => nil_seen = true,
+                (ClientOp::Line { session: 0, .. }, Out::RuntimeError(_)) => nil_seen = false,
+                (ClientOp::Vars { session: 0 }, Out::Vars(x)) if nil_seen && !x.is_empty() => *m.entry("vars_read_after_nil_line".to_string()).or_insert(0) += 1,
+                _ => {}
+            }
+        }
         for (i, op) in r.ops.iter().enumerate() {
             if let ClientOp::Line { session, src } = op {
                 if *session == 1 {
@@ -666,6 +675,7 @@ impl Property for C11 {
         // walk the executed script, tracking which step boundary each accepted line ends at
         let mut k_next = 0usize; // index of the next step to be consumed
         let mut any_nil_before = false;
+        let mut frozen: Option<(usize, Vec<(String, String, String)>)> = None;
         let mut prev_line_fallible = false;
         for (op, out) in r.ops.iter().zip(r.outs.iter()) {
             match op {
@@ -703,6 +713,10 @@ impl Property for C11 {
                     }
                     if any_nil_before {
                         // the one-shot program short-circuited earlier: the property is silent
+                        if matches!(out, Out::RuntimeError(_)) {
+                            // ... and the client starts a fresh session after a runtime error
+                            frozen = None;
+                        }
                         continue;
                     }
                     let expected = &e.prefix_values[end];
@@ -727,14 +741,41 @@ impl Property for C11 {
                     }
                     prev_line_fallible = e.steps[start..=end].iter().any(|s| s.narrows.is_some());
                     if matches!(expected, Out::Value(s) if s == "[]") || e.steps[start..=end].iter().any(|s| s.tailcall) {
+                        if !any_nil_before && start > 0 {
+                            frozen = Some((start, e.prefix_vars[start - 1].clone()));
+                        }
                         any_nil_before = true;
                     }
                     if matches!(out, Out::RuntimeError(_)) {
                         // the session is reset after a runtime error (as the CLI does)
                         any_nil_before = true;
+                        frozen = None;
                     }
                 }
                 ClientOp::Vars { session: 0 } => {
+                    if any_nil_before && let Some((from, frozen)) = &frozen {
+                        // after a nil-valued line (or a top-level tail call) the statement is silent about
+                        // values of LINES, but every binding made before that line is still in scope and
+                        // nothing that ran since has touched it
+                        let Out::Vars(got) = out else { continue };
+                        for (n, _ty, val) in frozen {
+                            if e.steps[*from..k_next].iter().any(|s| mentions(&s.src, n)) {
+                                continue;
+                            }
+                            match got.iter().find(|t| t.0 == *n) {
+                                None => {
+                                    v.push(Violation::new("C11", "variables", "lost-after-nil-line", format!("variable {n} (= {val} before the line at step {from} that evaluated to nil) is no longer listed"), r.steps));
+                                    return v;
+                                }
+                                Some((_, _, gval)) if norm_fn(gval) != norm_fn(val) => {
+                                    v.push(Violation::new("C11", "variables", "changed-after-nil-line", format!("variable {n} was {val} before the line at step {from} that evaluated to nil and nothing has rebound it since, but the session now reports {gval}"), r.steps));
+                                    return v;
+                                }
+                                _ => {}
+                            }
+                        }
+                        continue;
+                    }
                     if any_nil_before || k_next == 0 {
                         continue;
                     }
@@ -785,4 +826,36 @@ impl Property for C11 {
         }
         v
     }
+}
+
+/// does `src` mention the identifier `name` as a whole word?
+fn mentions(src: &str, name: &str) -> bool {
+    let b = src.as_bytes();
+    let mut from = 0;
+    while let Some(pos) = src[from..].find(name) {
+        let i = from + pos;
+        let before_ok = i == 0 || !(b[i - 1].is_ascii_alphanumeric() || b[i - 1] == b'_');
+        let j = i + name.len();
+        let after_ok = j >= b.len() || !(b[j].is_ascii_alphanumeric() || b[j] == b'_');
+        if before_ok && after_ok {
+            return true;
+        }
+        from = i + 1;
+    }
+    false
+}
+
+/// function values render with their table index, which differs between a session and a one-shot program
+fn norm_fn(s: &str) -> String {
+    let mut o = String::new();
+    let mut chars = s.chars().peekable();
+    while let Some(c) = chars.next() {
+        o.push(c);
+        if c == 'n' && o.ends_with("#fn") {
+            while chars.peek().is_some_and(|d| d.is_ascii_digit()) {
+                chars.next();
+            }
+        }
+    }
+    o
 }
